@@ -17,6 +17,7 @@ SELFTEST_MAP = {
     # patch under /verif/selftest -> properties whose check must fire
     "swap_insert_before_set_child.patch": ["C01", "C03", "C08"],
     "swap_remove_before_release.patch": ["C05", "C08"],
+    "swap_checked_insert.patch": ["C03", "C08"],
 }
 
 
